@@ -9,7 +9,9 @@ PROP = {
             'hoisted into a Scope directive (absolute, relative or single-segment path), declared with a path-prefixed or '
             '^-prefixed name, with minimal or non-minimal PkgLength encodings, split over 1-3 tables; method bodies '
             '(Store/operators/If/Else/While/Return/Increment, references, forward and nested invocations with exact '
-            'argument counts) are generated afterwards from the symbols visible by ACPI search rules. The harness encoder '
+            'argument counts, and Name/Mutex/Event/OperationRegion/Field declarations placed directly in the body or inside '
+            'If, Else and While blocks) are generated afterwards from the symbols visible by ACPI search rules. Objects '
+            'declared by a method body are expected in the scope of the method. The harness encoder '
             'is independent of the parser. Oracle: ParseAML succeeds for every table; the namespace view of the tree '
             '(children of a scope block; for Device-like objects the children of their nested scope block) equals the '
             'model two-sidedly, each object with kind, name and arguments (constants by value, strings/buffers by bytes, '
@@ -19,7 +21,7 @@ PROP = {
             'path/caret-prefixed name AND >=1 invocation with arguments.',
     'technique': 'rapid grammar-based program generation with namespace-by-construction model and independent encoder (round trip through the real parser)',
     'level_text': 'Grammar-based generation of well-formed AML with the expected namespace known by construction; the parser output is compared two-sidedly with that model. Exploration of the supported grammar subset; classes that are recorded findings are constructed around and counted.',
-    'level_note': 'Trusts the harness encoder and the by-construction scoping model; method-body statement nesting (If/While bodies) is not asserted, only invocations.',
+    'level_note': 'Trusts the harness encoder and the by-construction scoping model; method-body statement nesting (If/While bodies) is not asserted, only invocations and the objects a body declares (found by walking through If/Else/While nodes, which open no scope).',
     'assumptions': ['operands of OperationRegion are constants; Name data are constants, strings, buffers with constant size, packages',
                     'names are globally unique per program (lookup rules under shadowing are decided by C13)',
                     'Scope directives and path prefixes refer to objects declared earlier (same or earlier table); method calls may be forward within a table'],
